@@ -220,9 +220,14 @@ def check_table(case, part):
     for mask in itertools.product([False, True], repeat=n):
         if any(mask):
             exprs.append(("mask",) + mask)
+    for k, mask in enumerate(itertools.product([False, True], repeat=n)):
+        # the same masks as a plain Python list of booleans (`mask.tolist()`, a comprehension) and as an integer index ARRAY
+        if any(mask) and k % 2 == 1:
+            exprs.append(("masklist",) + mask)
     for r in (1, 2):
         for p in itertools.permutations(range(n), min(r, n)):
             exprs.append(("list",) + p)
+            exprs.append(("intarray",) + p)
     exprs.append(("names", "P", "K"))
     exprs.append(("names", "omega", "e", "P"))
     for ex in exprs:
@@ -236,6 +241,12 @@ def check_table(case, part):
             elif ex[0] == "mask":
                 mk = np.array(ex[1:], dtype=bool)
                 sub, mm = s[mk], m.rows(mk)
+            elif ex[0] == "masklist":
+                mk = [bool(x) for x in ex[1:]]
+                sub, mm = s[mk], m.rows(np.array(mk, dtype=bool))
+            elif ex[0] == "intarray":
+                ia = np.array(ex[1:], dtype=[np.int64, np.int32, np.uint8, np.intp][len(ex) % 4])
+                sub, mm = s[ia], m.rows(list(ex[1:]))
             elif ex[0] == "list":
                 sub, mm = s[list(ex[1:])], m.rows(list(ex[1:]))
             else:
